@@ -142,6 +142,14 @@ pub struct Ev {
     pub ts: i64,
     /// Up to three words extracted from the payload (id, key, value / tag).
     pub d: [u64; 3],
+    /// Process-wide observation stamp: probes on the same thread are totally ordered by it.
+    pub seq: u64,
+}
+
+static SEQ: std::sync::atomic::AtomicU64 = std::sync::atomic::AtomicU64::new(1);
+
+fn next_seq() -> u64 {
+    SEQ.fetch_add(1, std::sync::atomic::Ordering::Relaxed)
 }
 
 pub const K_ITEM: u8 = 0;
@@ -174,31 +182,37 @@ pub fn ev_of<T: Probed>(el: &StreamElement<T>) -> Ev {
             kind: K_ITEM,
             ts: 0,
             d: x.words(),
+            seq: next_seq(),
         },
         StreamElement::Timestamped(x, ts) => Ev {
             kind: K_TS,
             ts: *ts,
             d: x.words(),
+            seq: next_seq(),
         },
         StreamElement::Watermark(ts) => Ev {
             kind: K_WM,
             ts: *ts,
             d: [0; 3],
+            seq: next_seq(),
         },
         StreamElement::FlushBatch => Ev {
             kind: K_FLUSH_BATCH,
             ts: 0,
             d: [0; 3],
+            seq: next_seq(),
         },
         StreamElement::Terminate => Ev {
             kind: K_TERMINATE,
             ts: 0,
             d: [0; 3],
+            seq: next_seq(),
         },
         StreamElement::FlushAndRestart => Ev {
             kind: K_FAR,
             ts: 0,
             d: [0; 3],
+            seq: next_seq(),
         },
     }
 }
